@@ -1,0 +1,85 @@
+//go:build verif
+
+package mempool
+
+// Contracts for the verif build tag (comment-only; see /verif/DESIGN.md).
+
+//@ prop C08
+//@ import transaction github.com/nspcc-dev/neo-go/pkg/core/transaction
+//@ import nativehashes github.com/nspcc-dev/neo-go/pkg/core/native/nativehashes
+//@ import uint256 github.com/holiman/uint256
+//@ import util github.com/nspcc-dev/neo-go/pkg/util
+
+//@ pkg-invariant ErrInsufficientFunds != nil && ErrConflict != nil && ErrDup != nil && ErrOOM != nil && ErrConflictsAttribute != nil && ErrOracleResponse != nil
+
+//@ spec fee(tx *transaction.Transaction) int = tx.SystemFee + tx.NetworkFee
+//@ spec wfTx(tx *transaction.Transaction) bool = tx != nil && len(tx.Signers) >= 1 && tx.SystemFee >= 0 && tx.NetworkFee >= 0 && tx.SystemFee + tx.NetworkFee <= 9223372036854775807 && (tx.Signers[0].Account == nativehashes.Notary ==> len(tx.Signers) >= 2)
+//@ spec payerOf(tx *transaction.Transaction) payer = ite(tx.Signers[0].Account == nativehashes.Notary, payer{tx.Signers[0].Account, tx.Signers[1].Account}, payer{tx.Signers[0].Account, util.Uint160{}})
+//@ spec hi(tx *transaction.Transaction) bool = exists(i, 0, len(tx.Attributes), tx.Attributes[i].Type == transaction.HighPriority)
+//@ spec fpb(tx *transaction.Transaction) int = tx.NetworkFee / transaction.txSize(tx)
+
+//@ func (item).Compare
+//@ requires p.txn != nil && otherP.txn != nil && p.txn.NetworkFee >= 0 && otherP.txn.NetworkFee >= 0
+//@ ensures[high] hi(p.txn) && !hi(otherP.txn) ==> result > 0
+//@ ensures[low] !hi(p.txn) && hi(otherP.txn) ==> result < 0
+//@ ensures[fpb] hi(p.txn) == hi(otherP.txn) && fpb(p.txn) != fpb(otherP.txn) ==> (result > 0) == (fpb(p.txn) > fpb(otherP.txn)) && result != 0
+//@ ensures[netfee] hi(p.txn) == hi(otherP.txn) && fpb(p.txn) == fpb(otherP.txn) ==> (result > 0) == (p.txn.NetworkFee > otherP.txn.NetworkFee) && (result == 0) == (p.txn.NetworkFee == otherP.txn.NetworkFee)
+
+//@ func getPayer
+//@ requires wfTx(tx)
+//@ ensures[payer] result0 == payerOf(tx)
+//@ ensures[sponsored] result1 == (tx.Signers[0].Account == nativehashes.Notary)
+
+//@ func checkBalance
+//@ requires wfTx(tx)
+//@ ensures[iff] (result1 == nil) == (uint256.u256(balance.balance) >= fee(tx) && uint256.u256(balance.balance) >= (uint256.u256(balance.feeSum) + fee(tx)) % uint256.two256())
+//@ ensures[sum] result1 == nil ==> uint256.u256(result0) == (uint256.u256(balance.feeSum) + fee(tx)) % uint256.two256()
+
+// Balance of the fee payer as seen through the Feer (assumed non-negative).
+//@ spec utilBal(f Feer, a util.Uint160, b util.Uint160) int
+//@ iface Feer.GetUtilityTokenBalance
+//@ pure
+//@ requires recv != nil
+//@ ensures result != nil && uint256.bigval(result) == utilBal(recv, arg0, arg1) && utilBal(recv, arg0, arg1) >= 0 && utilBal(recv, arg0, arg1) < 1 << 200
+//@ iface Feer.BlockHeight
+//@ pure
+//@ iface Feer.FeePerByte
+//@ pure
+
+//@ spec feeSumOf(mp *Pool, p payer) int = ite(has(mp.fees, p), uint256.u256(mp.fees[p].feeSum), 0)
+//@ spec balOf(mp *Pool, f Feer, p payer) int = ite(has(mp.fees, p), uint256.u256(mp.fees[p].balance), utilBal(f, p.primary, p.secondary))
+//@ spec smallFees(mp *Pool, p payer) bool = has(mp.fees, p) ==> uint256.u256(mp.fees[p].feeSum) < 1 << 200 && uint256.u256(mp.fees[p].balance) < 1 << 200
+
+//@ func getPayerFee
+//@ requires feer != nil
+//@ ensures[hit] has(fees, payer) ==> result1 && result0 == fees[payer]
+//@ ensures[miss] !has(fees, payer) ==> !result1 && uint256.u256(result0.balance) == utilBal(feer, payer.primary, payer.secondary) && uint256.u256(result0.feeSum) == 0 && utilBal(feer, payer.primary, payer.secondary) >= 0 && utilBal(feer, payer.primary, payer.secondary) < 1 << 200
+
+//@ func (*Pool).tryAddSendersFee
+//@ requires mp != nil && mp.fees != nil && feer != nil && wfTx(tx) && smallFees(mp, payerOf(tx))
+//@ modifies mp.fees[payerOf(tx)]
+//@ ensures[cached] has(mp.fees, payerOf(tx)) && uint256.u256(mp.fees[payerOf(tx)].balance) == old(balOf(mp, feer, payerOf(tx)))
+//@ ensures[check] needCheck ==> result == (old(balOf(mp, feer, payerOf(tx))) >= fee(tx) && old(balOf(mp, feer, payerOf(tx))) >= old(feeSumOf(mp, payerOf(tx))) + fee(tx))
+//@ ensures[nocheck] !needCheck ==> result
+//@ ensures[added] result ==> uint256.u256(mp.fees[payerOf(tx)].feeSum) == old(feeSumOf(mp, payerOf(tx))) + fee(tx)
+//@ ensures[rejected] !result ==> uint256.u256(mp.fees[payerOf(tx)].feeSum) == old(feeSumOf(mp, payerOf(tx)))
+
+// Pool invariants that the conflict check relies on (stated at entry; their
+// preservation by Add/Remove is listed as not yet proved in the evidence).
+//@ spec wfPoolTx(mp *Pool) bool = forallkeys(mp.verifiedMap, h, has(mp.verifiedMap, h) ==> wfTx(mp.verifiedMap[h]) && transaction.wfAttrs(mp.verifiedMap[h]))
+//@ spec wfConflicts(mp *Pool) bool = forallkeys(mp.conflicts, c, has(mp.conflicts, c) ==> forall(i, 0, len(mp.conflicts[c]), has(mp.verifiedMap, mp.conflicts[c][i])))
+//@ spec sumFees(l []*transaction.Transaction, k int, p payer) int decreases k = ite(k <= 0, 0, sumFees(l, k-1, p) + ite(payerOf(l[k-1]) == p, fee(l[k-1]), 0))
+//@ spec wfList(l []*transaction.Transaction, n int) bool = forall(j, 0, n, l[j] != nil && wfTx(l[j]))
+
+//@ func (*Pool).checkTxConflicts
+//@ requires mp != nil && feer != nil && wfTx(tx) && transaction.wfAttrs(tx) && mp.fees != nil && wfPoolTx(mp) && wfConflicts(mp)
+//@ modifies mp.fees[payerOf(tx)]
+//@ ensures[list] result1 == nil ==> wfList(result0, len(result0))
+//@ ensures[balance] result1 == nil ==> old(balOf(mp, feer, payerOf(tx))) >= fee(tx) && old(balOf(mp, feer, payerOf(tx))) >= ((old(feeSumOf(mp, payerOf(tx))) - sumFees(result0, len(result0), payerOf(tx))) % uint256.two256() + fee(tx)) % uint256.two256()
+//@ ensures[cache] feeSumOf(mp, payerOf(tx)) == old(feeSumOf(mp, payerOf(tx))) && balOf(mp, feer, payerOf(tx)) == old(balOf(mp, feer, payerOf(tx)))
+//@ loop 0 invariant[wf] wfList(conflictsToBeRemoved, len(conflictsToBeRemoved))
+//@ loop 0 invariant[fresh] (conflictsToBeRemoved == nil && len(conflictsToBeRemoved) == 0) || fresh(conflictsToBeRemoved)
+//@ loop 2 invariant[wf] wfList(conflictsToBeRemoved, len(conflictsToBeRemoved))
+//@ loop 2 invariant[fresh] (conflictsToBeRemoved == nil && len(conflictsToBeRemoved) == 0) || fresh(conflictsToBeRemoved)
+//@ loop 4 invariant[sum] uint256.u256(expectedPayerFee.feeSum) == (uint256.u256(actualPayerFee.feeSum) - sumFees(conflictsToBeRemoved, $i, p)) % uint256.two256()
+//@ loop 4 invariant[bal] uint256.u256(expectedPayerFee.balance) == uint256.u256(actualPayerFee.balance)
